@@ -32,6 +32,11 @@ func (e *kvElection) logWithContext(ctx context.Context) []zap.Field {
 	}
 
 	// Add correlation ID if present in context
+	if ctx == nil {
+		// the election context is cleared by StopWithContext; late log calls must not panic
+		return fields
+	}
+
 	if correlationID := ctx.Value("correlation_id"); correlationID != nil {
 		fields = append(fields, zap.String("correlation_id", correlationID.(string)))
 	}
